@@ -47,7 +47,7 @@ def run(ctx, module, inv, mode, export_args, chunks, procs=4, timeout=1500):
     dpath = os.path.join(ctx.work, "diffs.ndjson")
     vf.write_ndjson(dpath, [diffs[k] for k in sorted(diffs)])
     cpath = os.path.join(ctx.work, "confirm.ndjson")
-    cs = ctx.vh(["confirm-progs", "mode=" + mode, "kind=" + mode, "diffs=" + dpath, "out=" + cpath] + export_args)
+    cs = ctx.vh(["confirm-progs", "mode=" + mode, "kind=" + mode, "diffs=" + dpath, "out=" + cpath, "all=" + prefix + "-all.ndjson"] + export_args)
     confirms = vf.read_ndjson(cpath)
     if cs["unfaithful"]:
         bad = [c for c in confirms if not c["model_faithful"]][:3]
